@@ -28,6 +28,10 @@ class VCError(Exception):
     """The function left the accepted subset (never mapped to a violation)."""
 
 
+class NotPure(Exception):
+    """an expression evaluated in direct style turned out to change the state (contracted getter, allocation)"""
+
+
 class SV:
     __slots__ = ('ty', 'z')
 
@@ -143,6 +147,11 @@ def truthy(sv):
         return z3.BoolVal(True)
     if t.kind == 'cfg':
         return z3.Function('cfg_truthy', z3.IntSort(), z3.BoolSort())(sv.z)
+    if t.kind == 'union':
+        U = T.union_datatype()
+        return z3.Or(z3.And(U.is_UI(sv.z), U.ui(sv.z) != 0), z3.And(U.is_US(sv.z), z3.Length(U.us(sv.z)) > 0), U.is_UR(sv.z))
+    if t.kind == 'match':
+        return z3.BoolVal(True)
     raise VCError(f'truthiness of {t!r} needs the heap')
 
 
@@ -180,6 +189,8 @@ class Executor:
         self.assumed_used = set()
         self.lemmas_applied = set()
         self.fresh_refs = {}
+        self.global_axioms = []
+        self._lam_cache = {}
         self.block_map = {}
         self.verifying_block = None
         self._newest_cache = {}
@@ -214,12 +225,18 @@ class Executor:
             if sort is None:
                 raise VCError(f'heap component {key} used before its sort is known')
             self.heap0[key] = z3.Const('H0_' + key, sort)
+            if key.startswith('llen'):
+                # list lengths are never negative (fact about every Python list in the pre-state)
+                r = z3.Int('r!len')
+                self.global_axioms.append(z3.ForAll([r], z3.Select(self.heap0[key], r) >= 0,
+                                                    patterns=[z3.Select(self.heap0[key], r)]))
         return self.heap0[key]
 
     def oblige(self, st, name, goal, kind='assert', info=None):
         if z3.is_true(goal):
             goal = z3.BoolVal(True)
         self.obs.append(Ob(name, st.pc + st.guards, goal, self.cur_fn, kind, info, self.split_terms(st, name)))
+        self.obs[-1].info['_axioms_from'] = len(self.global_axioms)
 
     def split_terms(self, st, name):
         """Terms (evaluated in the obligation's own state) on which the discharge may case-split."""
@@ -338,6 +355,29 @@ class Executor:
         s = sv.ty
         if s == ty:
             return sv
+        if ty.kind == 'union':
+            U = T.union_datatype()
+            if s.kind == 'none':
+                return SV(ty, U.UN)
+            if s.kind in ('int', 'bool', 'enum'):
+                return SV(ty, U.UI(self.coerce(sv, INT).z))
+            if s.kind == 'str':
+                return SV(ty, U.US(sv.z))
+            if s.kind == 'ref':
+                return SV(ty, U.UR(sv.z))
+            if s.kind == 'opt' and s.args[0].kind == 'ref':
+                return SV(ty, z3.If(sv.z == 0, U.UN, U.UR(sv.z)))
+            if s.kind == 'union':
+                return SV(ty, sv.z)
+        if s.kind == 'union' and ty.kind != 'union':
+            U = T.union_datatype()
+            # narrowing use (guarded by an isinstance test on the path); absence of TypeError is checked by callers
+            if ty.kind == 'int':
+                return SV(INT, U.ui(sv.z))
+            if ty.kind == 'str':
+                return SV(STR, U.us(sv.z))
+            if ty.kind == 'ref':
+                return SV(ty, U.ur(sv.z))
         if ty.kind == 'opt':
             inner = ty.args[0]
             if s.kind == 'none':
@@ -384,6 +424,21 @@ class Executor:
             return SV(ty, sv.z)
         raise VCError(f'cannot coerce {s!r} to {ty!r} ({what})')
 
+    def coerce_chk(self, st, cx, node, sv, ty, what):
+        """coerce, turning the implicit unwrapping of an Optional into an explicit `is not None` obligation"""
+        s = sv.ty
+        if s.kind == 'opt' and ty.kind != 'opt' and ty.kind != 'union' and not cx.spec:
+            if T.is_reflike(s.args[0]):
+                nn = sv.z != 0
+                inner = SV(s.args[0], sv.z)
+            else:
+                dt = T.sort_of(s)
+                nn = dt.is_some(sv.z)
+                inner = SV(s.args[0], dt.val(sv.z))
+            self.oblige(st, self.site(cx, node, 'not-None'), nn, kind='absence', info=dict(why=f'{what} may be None'))
+            return self.coerce(inner, ty, what)
+        return self.coerce(sv, ty, what)
+
     def type_facts(self, sv):
         """Type invariants assumed of inputs / field reads (dynamic class within the static class)."""
         t = sv.ty
@@ -399,6 +454,11 @@ class Executor:
             return [sv.z > 0]
         if t.kind == 'opt' and T.is_reflike(t.args[0]):
             return [sv.z >= 0]
+        if t.kind == 'union' and t.args:
+            U = T.union_datatype()
+            subs = sorted(self.repo.subclasses.get(t.args[0], ()))
+            ids = [self.repo.class_ids[c] for c in subs]
+            return [z3.Implies(U.is_UR(sv.z), z3.And(U.ur(sv.z) > 0, z3.Or([self.clsof(U.ur(sv.z)) == i for i in ids])))]
         if t.kind == 'enum':
             vals = sorted(self.repo.classes[t.args[0]].enum_members.values())
             if vals and vals == list(range(vals[0], vals[-1] + 1)):
@@ -408,9 +468,9 @@ class Executor:
 
     def isinstance_cond(self, sv, cname):
         t = sv.ty
-        if cname in ('int',):
+        if cname in ('int',) and t.kind != 'union':
             return z3.BoolVal(t.kind in ('int', 'bool', 'enum') and t.kind != 'enum')
-        if cname == 'str':
+        if cname == 'str' and t.kind != 'union':
             return z3.BoolVal(t.kind == 'str')
         if cname == 'bool':
             return z3.BoolVal(t.kind == 'bool')
@@ -419,6 +479,16 @@ class Executor:
         if cname == 'dict':
             return z3.BoolVal(t.kind == 'dict')
         if t.kind == 'none':
+            return z3.BoolVal(False)
+        if t.kind == 'union':
+            U = T.union_datatype()
+            if cname == 'int':
+                return U.is_UI(sv.z)
+            if cname == 'str':
+                return U.is_US(sv.z)
+            if cname in self.repo.classes:
+                ids = [self.repo.class_ids[c] for c in sorted(self.repo.subclasses[cname])]
+                return z3.And(U.is_UR(sv.z), z3.Or([self.clsof(U.ur(sv.z)) == i for i in ids]))
             return z3.BoolVal(False)
         if t.kind == 'opt':
             inner = t.args[0]
@@ -702,12 +772,15 @@ class Executor:
         box = []
 
         def k(s, v):
-            box.append(v)
+            box.append((s, v))
             return []
         self.ev(st, e, cx, k)
         if len(box) != 1:
             raise VCError(f'expression forks or raises where a pure one is required: {ast.unparse(e)}')
-        return box[0]
+        s1, v = box[0]
+        if not cx.spec and (s1.pc is not st.pc and len(s1.pc) != len(st.pc) or s1.heap is not st.heap and s1.heap != st.heap):
+            raise NotPure()
+        return v
 
     def is_simple_pure(self, e, cx):
         for n in ast.walk(e):
@@ -801,6 +874,13 @@ class Executor:
                                     why=f'{ast.unparse(node)}: receiver may be None')
         if t.kind == 'none':
             return self.do_raise(st, cx, 'AttributeError', node, why='attribute of None')
+        if t.kind == 'union':
+            if not t.args:
+                raise VCError(f'attribute of an untyped union value: {ast.unparse(node)}')
+            U = T.union_datatype()
+            inner = SV(T.ref(t.args[0]), U.ur(obj.z))
+            return self.guard_raise(st, cx, z3.Not(self.isinstance_cond(obj, t.args[0])), 'AttributeError', node,
+                                    lambda s: self.get_attr(s, inner, attr, cx, node, k), why='attribute of a non-object')
         if t.kind == 'enum':
             if attr == 'value':
                 return k(st, SV(INT, obj.z))
@@ -821,6 +901,10 @@ class Executor:
             if ov:
                 return self.dispatch(st, obj, attr, [], {}, cx, node, k, getter=True)
             v = self.read_field(st, obj, attr)
+            if not cx.spec:
+                for fact in self.type_facts(v):
+                    if not any(fact.eq(p_) for p_ in st.pc[-12:]):
+                        st = st.assume(fact)
             return k(st, v)
         if t.kind == 'tuple' and attr.startswith('f') and attr[1:].isdigit():
             dt = T.sort_of(t)
@@ -853,16 +937,23 @@ class Executor:
 
     def ev_BoolOp(self, st, e, cx, k):
         is_and = isinstance(e.op, ast.And)
+        vals = None
         if all(self.is_simple_pure(v, cx) for v in e.values):
             # no forking: evaluate operand i under the guard that operands < i did not short-circuit
             guards0 = st.guards
-            vals = []
-            s = st
-            for v in e.values:
-                sv = self.pure(s, v, cx)
-                vals.append(sv)
-                tv = self.truth(s, sv)
-                s = s.copy(guards=s.guards + ((tv if is_and else z3.Not(tv)),))
+            nobs = len(self.obs)
+            try:
+                vals = []
+                s = st
+                for v in e.values:
+                    sv = self.pure(s, v, cx)
+                    vals.append(sv)
+                    tv = self.truth(s, sv)
+                    s = s.copy(guards=s.guards + ((tv if is_and else z3.Not(tv)),))
+            except NotPure:
+                vals = None
+                del self.obs[nobs:]
+        if vals is not None:
             if all(v.ty.kind == 'bool' for v in vals):
                 zs = [v.z for v in vals]
                 return k(st.copy(guards=guards0), SV(BOOL, z3.And(zs) if is_and else z3.Or(zs)))
@@ -894,9 +985,17 @@ class Executor:
     def ev_IfExp(self, st, e, cx, k):
         def f(st, c):
             tv = self.truth(st, c)
+            ab = None
             if cx.spec or (self.is_simple_pure(e.body, cx) and self.is_simple_pure(e.orelse, cx)):
-                a = self.pure(st.copy(guards=st.guards + (tv,)), e.body, cx)
-                b = self.pure(st.copy(guards=st.guards + (z3.Not(tv),)), e.orelse, cx)
+                nobs = len(self.obs)
+                try:
+                    ab = (self.pure(st.copy(guards=st.guards + (tv,)), e.body, cx),
+                          self.pure(st.copy(guards=st.guards + (z3.Not(tv),)), e.orelse, cx))
+                except NotPure:
+                    ab = None
+                    del self.obs[nobs:]
+            if ab is not None:
+                a, b = ab
                 if a.ty == b.ty and a.ty.kind != 'none':
                     return k(st, SV(a.ty, z3.If(tv, a.z, b.z)))
                 if a.ty.kind == 'none' and b.ty.kind == 'none':
@@ -944,6 +1043,8 @@ class Executor:
         if ta.kind == 'none':
             return self.eq(st, b, a)
         if tb.kind == 'none':
+            if ta.kind == 'union':
+                return T.union_datatype().is_UN(a.z)
             if ta.kind == 'opt':
                 if T.is_reflike(ta.args[0]):
                     return a.z == 0
@@ -956,6 +1057,21 @@ class Executor:
             return z3.And(dt.is_some(a.z), self.eq(st, SV(ta.args[0], dt.val(a.z)), b))
         if tb.kind == 'opt' and ta.kind != 'opt':
             return self.eq(st, b, a)
+        if ta.kind == 'union' or tb.kind == 'union':
+            U = T.union_datatype()
+            if ta.kind != 'union':
+                a, b, ta, tb = b, a, tb, ta
+            if tb.kind == 'union':
+                return a.z == b.z
+            if tb.kind in ('int', 'bool'):
+                return z3.And(U.is_UI(a.z), U.ui(a.z) == self.coerce(b, INT).z)
+            if tb.kind == 'str':
+                return z3.And(U.is_US(a.z), U.us(a.z) == b.z)
+            if tb.kind == 'none':
+                return U.is_UN(a.z)
+            if T.is_reflike(tb):
+                return z3.And(U.is_UR(a.z), U.ur(a.z) == b.z)
+            return z3.BoolVal(False)
         if ta.kind == 'cfg' and tb.kind in ('int', 'str', 'bool'):
             return self.coerce(a, tb).z == b.z
         if tb.kind == 'cfg' and ta.kind in ('int', 'str', 'bool'):
@@ -996,7 +1112,11 @@ class Executor:
         if isinstance(op, ast.Is):
             if a.ty.kind == 'none' or b.ty.kind == 'none':
                 return self.eq(st, a, b)
-            if T.is_reflike(a.ty) or a.ty.kind == 'opt':
+            def rl(t):
+                return T.is_reflike(t) or (t.kind == 'opt' and T.is_reflike(t.args[0]))
+            if rl(a.ty) and rl(b.ty):
+                return a.z == b.z        # object identity
+            if a.ty.kind == 'opt' or b.ty.kind == 'opt':
                 return self.eq(st, a, b)
             raise VCError('`is` on non-reference values outside subset')
         if isinstance(op, ast.IsNot):
@@ -1029,6 +1149,12 @@ class Executor:
                 self.oblige(st, self.site(cx, node, 'no-TypeError'), dt.is_some(v.z), kind='absence',
                             info=dict(why=f'{ast.unparse(node)}: operand may be None'))
             return SV(v.ty.args[0], dt.val(v.z))
+        if v.ty.kind == 'union':
+            U = T.union_datatype()
+            if not cx.spec:
+                self.oblige(st, self.site(cx, node, 'no-TypeError'), U.is_UI(v.z), kind='absence',
+                            info=dict(why=f'{ast.unparse(node)}: operand may not be an int'))
+            return SV(INT, U.ui(v.z))
         if v.ty.kind == 'none':
             raise VCError(f'None used as a number: {ast.unparse(node)}')
         return v
